@@ -182,7 +182,7 @@ class SMCAlgorithm(Generic[R], Algorithm[R]):
         self,
         key: PRNGKey,
         v: ChoiceMap,
-        *args: tuple[Any, ...],
+        *args: Any,
     ) -> Score:
         assert isinstance(args[0], Target)
 
